@@ -106,3 +106,46 @@ pharness! {
         kani::cover!(matches!(r, Outcome::Accepted(..)), "accepted");
     }
 }
+pharness! {
+    #[kani::unwind(30)]
+    fn probe_n1() {
+        // v4 header + two unknown fields (16, 28), symbolic bytes elsewhere
+        let mut buf: [u8; 96] = kani::any();
+        buf[0] = 0x23;
+        pin_ef(&mut buf, 48, 0x1234, 16);
+        pin_ef(&mut buf, 64, 0x1235, 28);
+        match decode(&buf[..92], &NoCipher) {
+            Outcome::Accepted(p, _) => {
+                let u = ntp_proto::verif::packet::packet_untrusted(&p);
+                assert!(count_to(u.len()) == 2);
+            }
+            _ => assert!(false),
+        }
+    }
+}
+pharness! {
+    #[kani::unwind(30)]
+    fn probe_n2() {
+        // v5 header + draft + UID 16, zero bytes elsewhere
+        let mut buf = [0u8; 96];
+        buf[0] = 0x2B;
+        pin_draft(&mut buf, 48);
+        pin_ef(&mut buf, 76, T_UID, 16);
+        match decode(&buf[..92], &NoCipher) {
+            Outcome::Accepted(p, _) => {
+                let u = ntp_proto::verif::packet::packet_untrusted(&p);
+                assert!(count_to(u.len()) == 2);
+            }
+            _ => assert!(false),
+        }
+    }
+}
+fn count_to(n: usize) -> usize {
+    let mut c = 0;
+    let mut i = 0;
+    while i < n {
+        c += 1;
+        i += 1;
+    }
+    c
+}
